@@ -4,7 +4,7 @@ from props import resolver_common as rc
 ID = 'C03'
 LEVEL = 'exploration'
 TECHNIQUE = 'differential oracle: exact Fraction recomputation of the documented valence/trigger table vs real resolve'
-LEVEL_TEXT = 'Held on the resolves observed: final.score equals the exact recomputation for every generated report on a 0.01 score grid plus a probe class for number marshalling; unit_test partial credit through a real sandbox.'
+LEVEL_TEXT = 'Held on the resolves observed: final.score equals the exact recomputation for every generated report on a 0.01 score grid plus a probe class for number marshalling; unit_test partial credit through a real sandbox; the same sum under the full resolver, and with one scored feedback given several times.'
 LEVEL_NOTE = 'Trusts the score model (statement table); rounding ties and score operators outside the statement are skipped and counted.'
 RULE = rc.RULES[ID]
 ASSUMPTIONS = [
